@@ -29,7 +29,32 @@ def centre_exact(P):
 def apply(M, p):
     return [sum(M[i][j] * p[j] for j in range(3)) for i in range(3)]
 
+def gen_integer_case(rng):
+    """exactly centred point sets on the integer lattice, handed over as INTEGER arrays (grid / lattice models): Q is a
+    lattice rotation of P (or of its mirror image), optionally with integer noise that keeps the centroid at the origin"""
+    import itertools
+    n = rng.choice([3, 4, 5, 8, 12])
+    P = [[rng.randint(-20, 20) for _ in range(3)] for _ in range(n - 1)]
+    P.append([-sum(p[i] for p in P) for i in range(3)])
+    rots = []
+    for perm in itertools.permutations(range(3)):
+        for sg in itertools.product([1, -1], repeat=3):
+            M = [[sg[i] if perm[i] == j else 0 for j in range(3)] for i in range(3)]
+            det = (M[0][0] * (M[1][1] * M[2][2] - M[1][2] * M[2][1]) - M[0][1] * (M[1][0] * M[2][2] - M[1][2] * M[2][0])
+                   + M[0][2] * (M[1][0] * M[2][1] - M[1][1] * M[2][0]))
+            if det == 1:
+                rots.append(M)
+    R = rng.choice(rots)
+    mirror = rng.random() < 0.3
+    Qs = [[sum(R[i][j] * (p[j] if not (mirror and j == 2) else -p[j]) for j in range(3)) for i in range(3)] for p in P]
+    if rng.random() < 0.5 and n >= 4:
+        i, j = rng.sample(range(n), 2); k = rng.randrange(3); d = rng.randint(1, 3)
+        Qs[i][k] += d; Qs[j][k] -= d
+    return {'kind': 'integer-lattice', 'P': P, 'Q': Qs, 'method': rng.choice(['svd', 'quaternion', 'quaternion']), 'scale': 1.0, 'dtype': 'int'}
+
 def gen_case(rng):
+    if rng.random() < 0.08:
+        return gen_integer_case(rng)
     kind = rng.choice(['generic', 'generic', 'noisy', 'planar', 'linear', 'single', 'identical', 'mirror', 'mirror-noisy',
                        'near-equal', 'planar-mirror', 'two-points'])
     n = {'single': 1, 'two-points': 2}.get(kind, rng.choice([3, 3, 4, 4, 5, 6, 8, 13, 25, 40]))
@@ -77,6 +102,7 @@ def gen_case(rng):
 
 def gen_malformed(rng):
     c = gen_case(rng)
+    c.pop('dtype', None)
     r = rng.random()
     if r < 0.35:
         k = rng.randrange(3)
@@ -96,7 +122,8 @@ def gen_malformed(rng):
 def run_impl(pdb2sql, case):
     import numpy as np
     S = sys.modules['pdb2sql.superpose']
-    P, Qm = np.array(case['P'], dtype=float), np.array(case['Q'], dtype=float)
+    dt = np.int64 if case.get('dtype') == 'int' else float
+    P, Qm = np.array(case['P'], dtype=dt), np.array(case['Q'], dtype=dt)
     with record_linalg(np) as rec:
         r = impl_call(S.get_rotation_matrix, P, Qm, case['method'])
     ora = {'svd': None, 'eig': None}
